@@ -14,7 +14,8 @@ LEVEL = 'exploration'
 RULE = (
     'Metamorphic. Hypothesis draws a start mode, register contents inside '
     'the documented ranges on fine grids (hue -360..720 step 0.25, percentages '
-    'step 0.1, raw 0..65535, times and durations on a 1 ms grid, kelvin '
+    'step 0.1, raw 0..65535, times and durations on a 1 ms grid up to 20 s '
+    'and long ones (65.535 s, minutes, hours, up to 10^8 ms), kelvin '
     '1500..9000 incl. halves) and a chain of 1..4 `units` statements (all six '
     'transitions and the identity). Script A sends `set "A"` / `wait` without '
     'the chain, script B with it: the transmitted colour must agree within 1 '
@@ -55,6 +56,14 @@ def num(value):
     return text + '0' if text.endswith('.') else text
 
 
+# milliseconds: a fine grid up to 20 s, and long times (16-bit edge, minutes,
+# hours, a day)
+MILLISECONDS = st.one_of(
+    st.integers(0, 20000), st.integers(0, 20000),
+    st.sampled_from([65535, 65536, 65537, 90000, 600000, 3600000, 86400000]),
+    st.integers(0, 10 ** 8))
+
+
 @st.composite
 def cases(draw):
     mode = draw(st.sampled_from(MODES))
@@ -64,8 +73,8 @@ def cases(draw):
             regs[reg] = draw(st.one_of(
                 st.integers(0, 65535),
                 st.sampled_from([0, 65535, 32767, 32768, 1, 65534])))
-        regs['duration'] = draw(st.integers(0, 20000))
-        regs['time'] = draw(st.integers(0, 20000))
+        regs['duration'] = draw(MILLISECONDS)
+        regs['time'] = draw(MILLISECONDS)
     else:
         if mode == 'logical':
             # the manual lets a hue be any angle: -90 is 270
@@ -78,8 +87,8 @@ def cases(draw):
                 regs[reg] = draw(st.one_of(
                     st.integers(0, 1000).map(lambda v: v / 10),
                     st.sampled_from([0, 100, 50])))
-        regs['duration'] = draw(st.integers(0, 20000)) / 1000
-        regs['time'] = draw(st.integers(0, 20000)) / 1000
+        regs['duration'] = draw(MILLISECONDS) / 1000
+        regs['time'] = draw(MILLISECONDS) / 1000
     regs['kelvin'] = draw(st.one_of(
         st.integers(1500, 9000),
         st.integers(1500, 8999).map(lambda v: v + 0.5)))
